@@ -238,7 +238,9 @@ def run(chk, replay=None):
     for wt in weight_sets:
         W = sum(wt)
         if W & (W - 1) == 0:         # power of two: cumulative floats are exact
-            for unit in (0.125, 2.0 ** -20, 64.0):
+            # (49/256 and 3: totals that are not powers of two, yet every cumulative quotient k/W is exact when the code
+            # divides by the total - not when it multiplies by a rounded reciprocal)
+            for unit in (0.125, 2.0 ** -20, 64.0, 49.0 / 256.0, 3.0):
                 poisson_case(wt, unit, True, 'dyadic')
         for unit in (0.1, 3e-7, 0.7, 1e3 / 3):
             poisson_case(wt, unit, False, 'decimal')
@@ -375,8 +377,9 @@ def run(chk, replay=None):
 
     # 5b. the rejection loop fed with uniform numbers on / next to every cumulative boundary (dyadic rates: strict)
     for wt in [w_ for w_ in bin_cases + weight_sets if sum(w_) & (sum(w_) - 1) == 0 and sum(1 for x in w_ if x > 0) >= 2]:
+      for unit5 in (0.25, 49.0 / 256.0, 3.0):
         n = len(wt)
-        rates = [w_ * 0.25 for w_ in wt]
+        rates = [w_ * unit5 for w_ in wt]
         cdf = Cdf(rates)
         W = sum(wt)
         fc = B.forecast(numpy.array(rates).reshape(n, 1))
